@@ -29,7 +29,7 @@ struct Op {
 };
 
 struct Fault { int op = -1; int64_t alloc = -1; int kind = 0; }; // kind 0: throw bad_alloc, 1: nothrow returns null
-struct Seg   { int task = 0; uint64_t quantum = 0; };            // schedule segment: run task for quantum edges
+struct Seg   { int task = 0; uint64_t quantum = 0; uint32_t watch = 0; }; // schedule segment: run task for quantum edges (or until edge `watch`)
 
 struct Plan {
   std::string prop;          // C10 | C12 | C14
@@ -38,6 +38,7 @@ struct Plan {
   uint64_t seed = 0, run = 0;// provenance only
   int ntasks = 1;
   int check_model = 0;       // C12: compare every Execute with the fresh-object reference model
+  int variant = 0;           // C10 replay: 0 = as generated, 2 = twin allocator key, 3 = every nothrow request fails
   std::vector<Op> ops;
   std::vector<Fault> faults;
   std::vector<Seg> sched;    // C14: explicit schedule (if empty: derived from sched_seed)
